@@ -21,7 +21,12 @@
    literals  = reversed list of literal bodies (label k -> k-th body), counter = s_cnt.
    [fixp] selects the f-string prefix pattern of _FIND_TOKEN:
      false: (?P<fstring> f )?            -- the code as it is
-     true : (?P<fstring> [fF][rR]? )?    -- proposed repair (proposed_fixes/C47-*.diff)        *)
+     true : (?P<fstring> [fF][rR]? )?    -- proposed repair (proposed_fixes/C47-fstring_prefix_not_lowercase_f.diff)
+   [fixe] selects what parse_code passes as is_fstring after it skipped an empty triple-quoted literal
+   (a run of 6k+j quotes, j = 1,3,4,5, preceded by f):
+     false: token['fstring']            -- the code as it is: the f prefix of the empty literal is
+                                           carried over to the literal opened by the remaining j quotes
+     true : None                        -- proposed repair (proposed_fixes/C47-fstring_flag_after_empty_triple.diff) *)
 From Coq Require Import NArith List Bool.
 Import ListNotations.
 Open Scope N_scope.
@@ -163,7 +168,7 @@ Definition in_fstring (c : cctx) : bool := match c with CTop => false | _ => tru
 Definition nonempty (l : list ch) : bool := match l with [] => false | _ => true end.
 Definition qlen (triple : bool) : nat := if triple then 3%nat else 1%nat.
 
-Fixpoint run (fuel : nat) (fixp : bool) (m : mode) (rest : list ch) (s : state) : result :=
+Fixpoint run (fuel : nat) (fixp fixe : bool) (m : mode) (rest : list ch) (s : state) : result :=
   match fuel with
   | O => OutOfFuel
   | S fuel =>
@@ -177,29 +182,29 @@ Fixpoint run (fuel : nat) (fixp : bool) (m : mode) (rest : list ch) (s : state) 
           let n := length qrun in
           let n' := if Nat.ltb n 6 then n else Nat.modulo n 6 in
           if Nat.eqb n' 0 || Nat.eqb n' 2 then
-            run fuel fixp (MCode c) rest' (emit (sk ++ pre ++ qrun) s)
+            run fuel fixp fixe (MCode c) rest' (emit (sk ++ pre ++ qrun) s)
           else
             let extra := (n' - (if Nat.eqb n' 1 then 1 else 3))%nat in   (* len(quote) - 3 if > 3 *)
             let keep := (n - extra)%nat in
-            run fuel fixp (MStr q (negb (Nat.eqb n' 1)) (nonempty pre) c (rev (skipn keep qrun)))
+            run fuel fixp fixe (MStr q (negb (Nat.eqb n' 1)) (nonempty pre && negb (fixe && Nat.leb 6 n)) c (rev (skipn keep qrun)))
                 rest' (emit (sk ++ pre ++ firstn keep qrun) s)
         | TComment =>
           let (body, after) := span_nl rest' in
           let s2 := emit_label body (emit (sk ++ [c_hash]) s) in
           match after with
           | [] => finish s2                                                 (* EOF *)
-          | _ => run fuel fixp (MCode c) after s2
+          | _ => run fuel fixp fixe (MCode c) after s2
           end
         | TBrace b =>
           let s1 := emit (sk ++ [b]) s in
           match c with
-          | CTop => run fuel fixp (MCode c) rest' s1                        (* not in_fstring *)
+          | CTop => run fuel fixp fixe (MCode c) rest' s1                        (* not in_fstring *)
           | CFromStr q triple p =>
-            if b =? c_rb then run fuel fixp (MStr q triple true p []) rest' s1
-            else run fuel fixp (MCode (CFromCode c)) rest' s1
+            if b =? c_rb then run fuel fixp fixe (MStr q triple true p []) rest' s1
+            else run fuel fixp fixe (MCode (CFromCode c)) rest' s1
           | CFromCode p =>
-            if b =? c_rb then run fuel fixp (MCode p) rest' s1
-            else run fuel fixp (MCode (CFromCode c)) rest' s1
+            if b =? c_rb then run fuel fixp fixe (MCode p) rest' s1
+            else run fuel fixp fixe (MCode (CFromCode c)) rest' s1
           end
         | _ => Stuck
         end
@@ -211,22 +216,22 @@ Fixpoint run (fuel : nat) (fixp : bool) (m : mode) (rest : list ch) (s : state) 
         match tok with
         | TEscape bs c =>
           if Nat.even (length bs) && (c =? q)
-          then run fuel fixp (MStr q triple isf p (rev_append (sk ++ bs) rpend)) (c :: rest') s
-          else run fuel fixp (MStr q triple isf p (rev_append (sk ++ bs ++ [c]) rpend)) rest' s
+          then run fuel fixp fixe (MStr q triple isf p (rev_append (sk ++ bs) rpend)) (c :: rest') s
+          else run fuel fixp fixe (MStr q triple isf p (rev_append (sk ++ bs ++ [c]) rpend)) rest' s
         | TBraces b brun =>
           if negb isf then Stuck
           else if Nat.even (length brun) || negb (b =? c_lb)
-          then run fuel fixp (MStr q triple isf p (rev_append (sk ++ brun) rpend)) rest' s
+          then run fuel fixp fixe (MStr q triple isf p (rev_append (sk ++ brun) rpend)) rest' s
           else
             let s1 := emit_label_ne (rev_append rpend (sk ++ removelast brun)) s in
-            run fuel fixp (MCode (CFromStr q triple p)) rest' (emit [c_lb] s1)
+            run fuel fixp fixe (MCode (CFromStr q triple p)) rest' (emit [c_lb] s1)
         | TQuote pre c qrun =>
           if (c =? q) && Nat.leb (qlen triple) (length qrun)
           then
             let s1 := emit_label_ne (rev_append rpend (sk ++ pre)) s in
-            run fuel fixp (MCode p) (skipn (qlen triple) qrun ++ rest')
+            run fuel fixp fixe (MCode p) (skipn (qlen triple) qrun ++ rest')
                 (emit (firstn (qlen triple) qrun) s1)
-          else run fuel fixp (MStr q triple isf p (rev_append (sk ++ pre ++ qrun) rpend)) rest' s
+          else run fuel fixp fixe (MStr q triple isf p (rev_append (sk ++ pre ++ qrun) rpend)) rest' s
         | _ => Stuck
         end
       end
@@ -235,8 +240,8 @@ Fixpoint run (fuel : nat) (fixp : bool) (m : mode) (rest : list ch) (s : state) 
 
 Definition init_state : state := mkst [] [] 0.
 
-Definition strip (fixp : bool) (code : list ch) : result :=
-  run (S (length code)) fixp (MCode CTop) code init_state.
+Definition strip (fixp fixe : bool) (code : list ch) : result :=
+  run (S (length code)) fixp fixe (MCode CTop) code init_state.
 
 (* ---------- rendering: the join of new_code and the literals dict ---------- *)
 Fixpoint uint_chars (u : Decimal.uint) : list ch :=
